@@ -1806,6 +1806,14 @@ class multislater(wave_function_auto):
             wave_data["ref_det"],
         )
         green = self._calc_green(walker_up, walker_dn, wave_data)
+        # excitations are stored as orbital indices: place the rows of the half
+        # green's functions at the orbitals occupied in the reference determinant
+        green = [
+            jnp.zeros((self.norb, self.norb), dtype=green[sigma].dtype)
+            .at[jnp.nonzero(ref_det[sigma], size=self.nelec[sigma])[0]]
+            .set(green[sigma])
+            for sigma in range(2)
+        ]
 
         # overlap with the reference determinant
         overlap_0 = jnp.linalg.det(
